@@ -93,6 +93,11 @@ func replayUpd(line []byte, a *Acc) {
 					fmt.Sprintf("UpdateValuesForPath(%v,%q,%v) on %s: got count %d post %s; spec count %d post %s", nv, c.P, sk, short(pre), n, short(got), c.C, short(expPost)))
 				break
 			}
+			// the post-state is a value (a tree): no container object sits at two nodes
+			if sh := tagged.SharedContainer(mv); sh != "" {
+				one("upd:shared-container", fmt.Sprintf("UpdateValuesForPath(%v,%q,%v) on %s: after the call one container object is reachable at %s", nv, c.P, sk, short(pre), sh))
+				break
+			}
 			// read-back clause on the real code
 			if c.C > 0 && len(c.Conds) == 0 && strings.HasSuffix("."+c.P, "."+c.Key) && c.Val.T != "l" {
 				vals, _ := mv.ValuesForPath(c.P)
